@@ -1,0 +1,11 @@
+//go:build verif
+
+package dir
+
+import "github.com/mit-pdos/go-journal/common"
+
+// VerifDecodeDirEnt decodes one on-disk directory entry.
+func VerifDecodeDirEnt(d []byte) (common.Inum, string) {
+	de := decodeDirEnt(d)
+	return de.inum, de.name
+}
